@@ -245,6 +245,9 @@ let judge_line (line : string) =
       let (outs, back) = split_at "|" rhs in
       bump opcount "Format"; Hashtbl.replace nontrivial d ();
       report line (judge_format (dec_req d) (List.map str_of_hex outs) (List.map (fun t -> if t = "err" then None else dec_of_token t) back))
+  | ["fx"; d], [g; e; st; pe] ->
+      bump opcount "FormatExtreme"; Hashtbl.replace nontrivial d ();
+      report line (judge_format_extreme (dec_req d) (str_of_hex g) (str_of_hex e) (str_of_hex st) (str_of_hex pe))
   | ["ps"; h], rhs ->
       let (a, b) = split_at ";" rhs in
       bump opcount "Parse";
